@@ -26,6 +26,7 @@ func init() {
 
 func runC12(p *core.Program, r *core.Report) {
 	c := rc{p, r}
+	noAnswerBeforeTheScan(c, "gogu.Map", "gogu.ForEach", "gogu.ForEachRight", "gogu.Reduce", "gogu.Reverse", "gogu.Chunk", "gogu.Partition", "gogu.Filter", "gogu.Reject", "gogu.DropWhile", "gogu.DropRightWhile", "gogu.mapByIndex", "gogu.Zip", "gogu.Unzip", "gogu.Merge", "gogu.Shuffle")
 	hygiene(c, "slice.go", "filter.go", "shuffle.go", "string.go")
 
 	// ---------------- visit once, in order
@@ -205,6 +206,14 @@ func runC12(p *core.Program, r *core.Report) {
 			}
 		}
 		c.ob("PV2", "gogu.GroupBy", "groups slice[i] under fn(slice[i])", c.fpos(fn), okG, "GroupBy must be mapByIndex(slice, Map(slice, fn)): element i grouped under the key of element i")
+		if mbi != nil {
+			okW, at := returnsCallUnmodified(fn, mbi)
+			pos := c.fpos(fn)
+			if at != nil {
+				pos = p.InstrPos(at)
+			}
+			c.ob("PV2", "gogu.GroupBy", "answers with the grouping and nothing else", pos, okW, "a return of GroupBy hands back something other than the result of mapByIndex: some inputs are answered without being grouped")
+		}
 	}
 
 	// ---------------- Reject
